@@ -322,3 +322,30 @@ class Result:
         self.oracle_violations = [] # list of dict(payload=..., what=...)
         self.known_hits = []        # list of (finding id, what)
         self.extra = {}
+
+
+def coq_eval(run_def, inp, timeout=300):
+    """Evaluate `run` on one input inside Coq and return the model's output as a str
+    (debugging / search aid; the verdict never depends on parsing this)."""
+    corr = os.path.join(COQ, "Corr")
+    name = "cases_eval_%d" % os.getpid()
+    with open(os.path.join(corr, name + ".v"), "w") as f:
+        f.write("From Coq Require Import List NArith ZArith Bool String.\nImport ListNotations.\n")
+        f.write("Require Import PyStr CaseLib.\nOpen Scope string_scope.\n" + run_def + "\n")
+        f.write("Eval vm_compute in run (dec %s).\n" % coq_str(inp))
+    try:
+        rc, out = _run(["coqc"] + COQ_R + ["Corr/%s.v" % name], cwd=COQ, timeout=timeout)
+    finally:
+        for ext in (".v", ".vo", ".vok", ".vos", ".glob"):
+            try:
+                os.remove(os.path.join(corr, name + ext))
+            except OSError:
+                pass
+        try:
+            os.remove(os.path.join(corr, "." + name + ".aux"))
+        except OSError:
+            pass
+    m = re.search(r"=\s*\[(.*)\]\s*:\s*list N", out, re.S)
+    if not m:
+        return "<<coq: %s>>" % out[-500:]
+    return "".join(chr(int(x)) for x in re.findall(r"\d+", m.group(1).replace("%N", "")))
